@@ -71,12 +71,17 @@ LookupIdent(lit) == IF lit \in DOMAIN Keywords THEN Keywords[lit] ELSE "IDENT"
 QuickChunks == {
   <<"x">>, <<"C","!">>, <<"p","r","a","g","m","a">>, <<"d","e","f","a","u","l","t">>, <<"r","o","l">>,
   <<"1">>, <<"0","x">>, <<".">>, <<"e">>, <<"m","s">>, <<"-">>, <<":">>, <<"\"">>, <<"{">>, <<"}">>,
-  <<"/">>, <<"*">>, <<"#">>, <<"\n">>, <<" ">>, <<"=">>, <<"|">>, <<"<">>, <<"!">>, <<";">>, <<"NUL">>, <<"U2">> }
+  <<"/">>, <<"*">>, <<"#">>, <<"\n">>, <<" ">>, <<"=">>, <<"|">>, <<"<">>, <<"!">>, <<";">>, <<"NUL">>, <<"U2">>,
+  <<"{", "\"">>, <<"\"", "}">> }
 MoreChunks == {
   <<"C">>, <<"W","!">>, <<"r","o","r">>, <<"0">>, <<"p">>, <<"s">>, <<"h">>, <<"f">>, <<"X">>, <<"_">>,
   <<"\t">>, <<"\r">>, <<"&">>, <<"^">>, <<">">>, <<"~">>, <<"%">>, <<"+">>, <<",">>, <<"(">>, <<")">>,
   <<"[">>, <<"]">>, <<"XFF">>, <<"@">>, <<"i","f">> }
 AllChunks == QuickChunks \cup MoreChunks
+\* a small alphabet for long inputs: line structure, strings, long strings, comments left open and closed across
+\* several lines, a wide rune - the state the lexer carries from token to token (line / column bookkeeping, the
+\* queue of pushed tokens) is only visible several tokens later
+DeepChunks == { <<"x">>, <<" ">>, <<"\n">>, <<"\"">>, <<"{", "\"">>, <<"\"", "}">>, <<"/", "*">>, <<"*", "/">>, <<"#">>, <<"U2">> }
 RECURSIVE Flatten(_)
 Flatten(cs) == IF cs = <<>> THEN <<>> ELSE Head(cs) \o Flatten(Tail(cs))
 =============================================================================
